@@ -402,6 +402,20 @@ def norm_ids(s):
     return _ID_RE.sub(r"ID-\1", s) if isinstance(s, str) else s
 
 
+def norm_ids_deep(x):
+    """norm_ids over every string inside a JSON-like structure"""
+    if isinstance(x, str):
+        return _ID_RE2.sub(r"ID-\1", x)
+    if isinstance(x, list):
+        return [norm_ids_deep(v) for v in x]
+    if isinstance(x, dict):
+        return {k: norm_ids_deep(v) for k, v in x.items()}
+    return x
+
+
+_ID_RE2 = re.compile(r"(?<![0-9A-Za-z])M[0-9a-z]{7}-(\d+)")
+
+
 def outcome(x):
     """harness result -> ('ok', payload) | ('err', first line) | ('panic', msg)"""
     if "ok" in x:
